@@ -224,4 +224,15 @@ func init() {
 			{Name: "cons", Pkg: "c03", Run: "^TestC03Conservation$", QuickChecks: 5000, ThoroughChecks: 50000, ThoroughShards: 16, CaseFile: true, CrashOracle: "no-crash"},
 		},
 	}
+
+	registry["C08"] = &Check{
+		Rule: "sequential world scenarios: 2-7 actors (depth <= 3) each with its own strategy (one-for-one / one-for-all) and a list of 1-2 decisions from {restart, graceful restart, stop, graceful stop, resume, escalate} or inheriting the system strategy (library default Stop, or a drawn one); providers; failing OnLaunch incarnations; failures while handling OnKill / own OnKilled / a child's OnKilled; then 1-6 tells, each plain or failing by panic / ctx.Failed. The world is settled after every operation and a reference model of the supervision effect table predicts the consultations (supervisor, failing child, decision, in order), the ActorFailedEvents, the live set, each actor's OnLaunch count, the set of touched actors, the delivery count of the operation's message and the state counter of the handling instance. Cases are judged up to (not including) the first cascade of >= 2 failures or concurrent failures, where the outcome is the scheduler's. Non-trivial = a supervised failure with at least one untouched live actor or a failing child that has children. Distinct = hash of the case.",
+		Assumptions: []string{
+			"decision makers are harness closures keyed by supervisor; consultations of the library's own default strategy are not observable and not compared",
+			"a one-for-all Stop of the system strategy is not generated (it stops the observer)",
+		},
+		Units: []Unit{
+			{Name: "matrix", Pkg: "c08", Run: "^TestC08Matrix$", QuickChecks: 8000, ThoroughChecks: 80000, ThoroughShards: 16, CaseFile: true, CrashOracle: "no-crash"},
+		},
+	}
 }
